@@ -82,6 +82,11 @@ type PlanAction struct {
 }
 
 type Program struct {
+	// Churn > 0 (C10 index-churn facet): the swamp holds ONLY int64 records — an int64 anchor
+	// and Churn records "x<i>" = i*7%1000 written by one Set before the clients start — and the
+	// VALUE_INT64 (asc + desc) and KEY indexes are built before the clients start. Record x<i>
+	// is touched by client i % len(Clients) only (ops xset / xdel / xshift).
+	Churn   int          `json:"churn,omitempty"`
 	Config  int          `json:"config"`
 	Keys    []KeySpec    `json:"keys"`
 	Clients [][]Op       `json:"clients"`
@@ -90,7 +95,7 @@ type Program struct {
 
 func isWrite(k string) bool {
 	switch k {
-	case "set", "inc", "patch", "del", "shift", "burst":
+	case "set", "inc", "patch", "del", "shift", "burst", "xset", "xdel", "xshift":
 		return true
 	}
 	return false
@@ -471,6 +476,10 @@ type RunResult struct {
 	// torn / foreign reads seen by the C10 readers
 	ReadViolations []string
 	Reads          int
+	// index-churn facet: differences between the quiescent index listings and the records that
+	// must exist (each record has one owner client, so its final state is known exactly)
+	IndexViolations []string
+	IndexChecked    int
 }
 
 const (
@@ -512,7 +521,9 @@ func RunProgram(r *rig.Rig, cli hydrapb.HydraideServiceClient, swamp string, p *
 	// setup (sequential, part of the history): an anchor record keeps the swamp
 	// non-empty for the whole program — deleting the LAST record of a swamp
 	// destroys the swamp, which is C16's subject, not this one's.
-	{
+	if p.Churn > 0 {
+		e.churnSetup()
+	} else {
 		s := "anchor"
 		g := r.G
 		_, _ = g.Set(context.Background(), &hydrapb.SetRequest{Swamps: []*hydrapb.SwampRequest{{
@@ -592,6 +603,9 @@ func RunProgram(r *rig.Rig, cli hydrapb.HydraideServiceClient, swamp string, p *
 		run(clientFinal, i, Op{K: "get", Key: i})
 	}
 	snapshot()
+	if p.Churn > 0 {
+		res.IndexViolations, res.IndexChecked = e.churnCheck(res.Events)
+	}
 	res.PanicsBy = r.Logs.Panics() - panics0
 	res.Recent = r.Logs.Recent(60)
 	res.PanicTexts = takePanicTexts()
